@@ -1,6 +1,7 @@
 package drive
 
 import (
+	"google.golang.org/protobuf/encoding/protowire"
 	"encoding/json"
 	"fmt"
 	"math/rand"
@@ -392,6 +393,48 @@ func (d *robust) height() error {
 		b.C.Eng.TakeLog()
 		acc := perr == nil && pr.Status == abci.ResponseProcessProposal_ACCEPT
 		d.w.Emit(Ev{"ev": "input", "run": d.run, "where": "process", "kind": "proposal/" + replaceFirst, "errored": perr != nil, "code": boolCode(acc)})
+		// wire-level mutants of the honest execution-block transaction: genuinely signed, but with protobuf fields of the message
+		// or of its payload omitted, emptied, repeated or renumbered (no Go encoder produces these bytes; a peer can)
+		if h > c.InitialHeight {
+			if pl, err := b.C.HonestPayload(0, 1); err == nil {
+				if honestTx, err := b.C.BlockTx(0, h, pl, sim.SignOpts{}); err == nil {
+					for k := 0; k < 4; k++ {
+						var path []protowire.Number
+						if r.Intn(5) > 0 {
+							path = []protowire.Number{2} // inside the payload
+						}
+						how := ""
+						mt, err := b.C.ResignWithValue(honestTx, b.C.KR.Vals[0].Priv, func(v []byte) []byte {
+							out, hw, ok := wireMutate(r, v, path)
+							if !ok {
+								return v
+							}
+							how = hw
+							return out
+						})
+						if err != nil || how == "" {
+							continue
+						}
+						txs := [][]byte{mt}
+						for _, t := range bp.Txs {
+							txs = append(txs, t.Bytes)
+						}
+						blkW := &sim.Block{Height: h, Time: b.C.TimeAt(b.Tick), Proposer: 0, Votes: votes, Misbehavior: lp.Misb, Txs: txs}
+						b.C.Eng.NextRequests = reqs
+						d.journal("process-wire:"+how, txs)
+						pr, perr := b.C.Process(blkW)
+						b.C.Eng.TakeLog()
+						d.w.Emit(Ev{"ev": "input", "run": d.run, "where": "process", "kind": "proposal/wire", "how": how, "errored": perr != nil,
+							"code": boolCode(perr == nil && pr.Status == abci.ResponseProcessProposal_ACCEPT)})
+						d.journal("checktx-wire:"+how, mt)
+						res, cerr := c.App.CheckTx(&abci.RequestCheckTx{Tx: mt, Type: abci.CheckTxType_New})
+						d.w.Emit(Ev{"ev": "input", "run": d.run, "where": "check", "kind": "wire", "how": how, "errored": cerr != nil, "code": codeOf(res)})
+						// (not finalised: a payload whose bytes changed no longer matches its block hash, and an engine that answers
+						// INVALID at the end of a block stops the chain by design, C09)
+					}
+				}
+			}
+		}
 		// arbitrary proposals
 		for k := 0; k < 2; k++ {
 			var txs [][]byte
